@@ -249,6 +249,9 @@ func evalC12(c C12Case) *h.Finding {
 				fail("c12-chunking", "CHUNKING is advertised but BDAT was answered %s", r.String())
 			}
 		}
+		// what SIZE advertises holds for every message of the connection: behind a chunked message the next transaction may
+		// declare the full size again
+		expect(fmt.Sprintf("MAIL FROM:<ok@a.example> SIZE=%d", c12Size), true, 0, "SIZE within the limit, in the transaction behind a chunked message")
 		// AUTH
 		ar := one("AUTH ONE Z29vZA==")
 		arBefore := ar.String()
@@ -412,7 +415,7 @@ func C12(tier string) int {
 			}
 		}
 	}
-	run.Rule = fmt.Sprintf("the COMPLETE configuration space: 5 extension flags x size limit {0,%d} x recipient limit {0,%d} x TLS {none, available, active via implicit TLS, active via STARTTLS, available but the handshake after STARTTLS failed (still plaintext)} x AllowInsecureAuth x backend {auth-capable, plain} x {SMTP, LMTP} = %d configurations (the statement's 3072 plus the second route to TLS-active and the failed-handshake route). Each is one lock-step conversation with the real server (real TLS handshakes, in a synctest bubble): HELO, EHLO/LHLO keyword set compared with an independent capability function, then one probe per extension (8BITMIME, SMTPUTF8, REQUIRETLS, BINARYMIME, RET, ENVID, SIZE within/above, NOTIFY, ORCPT, RRVS, recipients up to limit+1, BDAT, AUTH, STARTTLS and the capability list after it). Plus 12 pairs of connections of ONE server in different TLS states, one held inside the backend's AuthMechanisms callback while the other completes its EHLO: each reply is that of its own connection. states = configurations; transitions = commands sent. Non-trivial: all.", c12Size, c12Rcpt, len(cases))
+	run.Rule = fmt.Sprintf("the COMPLETE configuration space: 5 extension flags x size limit {0,%d} x recipient limit {0,%d} x TLS {none, available, active via implicit TLS, active via STARTTLS, available but the handshake after STARTTLS failed (still plaintext)} x AllowInsecureAuth x backend {auth-capable, plain} x {SMTP, LMTP} = %d configurations (the statement's 3072 plus the second route to TLS-active and the failed-handshake route). Each is one lock-step conversation with the real server (real TLS handshakes, in a synctest bubble): HELO, EHLO/LHLO keyword set compared with an independent capability function, then one probe per extension (8BITMIME, SMTPUTF8, REQUIRETLS, BINARYMIME, RET, ENVID, SIZE within/above, NOTIFY, ORCPT, RRVS, recipients up to limit+1, BDAT, SIZE once more behind the chunked message, AUTH, STARTTLS and the capability list after it). Plus 12 pairs of connections of ONE server in different TLS states, one held inside the backend's AuthMechanisms callback while the other completes its EHLO: each reply is that of its own connection. states = configurations; transitions = commands sent. Non-trivial: all.", c12Size, c12Rcpt, len(cases))
 	run.Assumptions = []string{"REQUIRETLS enabled by configuration but probed outside TLS (not advertised there) is not judged: the statement fixes only 'advertised => accepted' and 'disabled by configuration => 504'"}
 	h.ParallelFor(len(cases), func(i int) {
 		if run.Expired() {
